@@ -42,10 +42,19 @@ def main():
                 continue
             t0 = time.time()
             env = dict(os.environ, BLDFM_VERIF_REPO=WT, VERIF_MAX_CLASSES="2")
-            p = subprocess.run([f"{V}/check", prop, "--tier", tier, "--no-evidence"], text=True, capture_output=True, env=env, cwd=V)
-            classes = [l.split("violation class=")[1][:200] for l in p.stdout.splitlines() if "violation class=" in l]
-            results[i] = {"property": prop, "tier": tier, "exit": p.returncode, "caught": p.returncode == 1, "classes": classes, "wall_s": round(time.time() - t0, 1),
-                          "repo_head": sh("git -C /repo rev-parse --short HEAD").stdout.strip()}
+            results[i] = None
+            for pr in [prop] + meta.get("also_check", []):
+                p = subprocess.run([f"{V}/check", pr, "--tier", tier, "--no-evidence"], text=True, capture_output=True, env=env, cwd=V)
+                classes = [l.split("violation class=")[1][:200] for l in p.stdout.splitlines() if "violation class=" in l]
+                r = {"property": prop, "checked_with": pr, "tier": tier, "exit": p.returncode, "caught": p.returncode == 1, "classes": classes, "wall_s": round(time.time() - t0, 1),
+                     "repo_head": sh("git -C /repo rev-parse --short HEAD").stdout.strip()}
+                if results[i] is None or r["caught"]:
+                    prev = results[i]
+                    results[i] = r
+                    if prev is not None:
+                        results[i]["not_caught_by"] = prev["checked_with"]
+                if r["caught"]:
+                    break
             print(i, results[i]["caught"], "exit", results[i]["exit"], results[i]["wall_s"], classes[:1], flush=True)
             for l in p.stdout.splitlines():
                 if l.startswith("VIOLATION"):
